@@ -69,6 +69,21 @@ func main() {
 		}
 	}
 	rtBatch(r, rng)
+	// exported fields the application owns are inputs: Host.HuntStage set to hunt / redirected / normal (op H), then the
+	// duplicate-IP branch and the usual ops; and the conflict histories with stage writes sprinkled in
+	nHunt := 150
+	if r.Thorough() {
+		nHunt = 3000
+	}
+	for i := 0; i < nHunt; i++ {
+		ops := g.HuntStageHistory()
+		if i%3 == 2 {
+			ops = g.WithStages(g.ConflictHistory(6+rng.Intn(20)), 20)
+		}
+		ips, macs := tables.Candidates(cfg, ops)
+		r.Do("t4", append([]string{cfg.Tok(), "0", tables.IPsTok(ips), tables.MacsTok(macs)}, ops...)...)
+		r.Stat("class.application-fields", 1)
+	}
 	// op pairs on one MAC in every order (SetDHCPv4IPOffer x DHCPv4Update x frame x purge), client online / offline / unknown
 	for i := 0; i < 432; i += 1 + rng.Intn(2) {
 		ops := g.OfferPairHistory(i)
